@@ -10,28 +10,28 @@ PROP = {  # commit subject prefix -> property
  "NamespaceManager drops": "C17", "N-Quads and HexTuples parsers": "C12", "SimpleMemory.triples": "C01",
  "Memory no longer reports": "C01", "a quad whose graph is None": "C02", "backward evaluation of a sequence": "C11",
  "zero-or-more / zero-or-one": "C11", "Collection.index()": "C19", "Collection indexing": "C19",
- "deleting the first item": "C19", "Collection += []": "C19", "store bind() without override": "C17",
+ "deleting the first item": "C19", "Collection += []": "C19", "Collection += an iterable": "C19", "store bind() without override": "C17",
  "split_uri keeps": "C17", "the JSON-LD parser binds": "C17", "SPARQLStore.contexts": "C20",
  "SPARQLUpdateStore.commit()": "C20", "SPARQLUpdateStore.update(initBindings=)": "C20",
- "SPARQLUpdateStore addresses": "C20", "SPARQL XML results keep": "C16", "SPARQL XML result reader": "C16",
+ "SPARQLUpdateStore addresses": "C20", "SPARQLUpdateStore recognises long": "C20", "SPARQL XML results keep": "C16", "SPARQL XML result reader": "C16",
  "SPARQL TSV result reader": "C16", "from_n3 reads the n3 form": "C07", "from_n3 no longer mangles": "C07",
- "pickling or copying": "C07", "ordering literals": "C07", "the n3 form of a multi-line": "C07",
+ "pickling or copying": "C07", "ordering literals": "C07", "NaN-valued literals": "C07", "literal ordering ignores": "C07", "an ill-typed literal is ordered": "C07", "the n3 form of a multi-line": "C07",
  "from_n3 un-escapes": "C07", "the SPARQL parser keeps TAB": "C07", "RDF Patch diff": "C06", "TriG keeps": "C06",
  "the N-Triples parser accepts statements": "C05", "a language tag with": "C05", "parsing from bytes": "C05",
  "N-Triples/N-Quads output validates": "C05", "control characters make": "C05",
- "aggregates with DISTINCT": "C08", "MIN and MAX": "C08", "AVG over xsd:float": "C08", "SUM and AVG over": "C08",
+ "aggregates with DISTINCT": "C08", "MIN and MAX": "C08", "AVG over xsd:float": "C08", "SUM and AVG over": "C08", "an aggregate skips": "C08",
  "a Literal made from a non-finite": "C09", "normalize() of a binary": "C09", "xsd:normalizedString": "C09",
  "DELETE WHERE matches": "C10", "INSERT templates skip": "C10", "a blank node label in an INSERT": "C10",
  "template GRAPH ?g": "C10", "DROP DEFAULT through": "C10", "updates outside GRAPH": "C10", "CLEAR/DROP NAMED": "C10",
  "the TriX parser scopes": "C12", "reading a dataset through": "C13", "SPARQL string literals accept": "C16",
  "the TSV result reader keeps a variable": "C16", "graph canonicalisation only": "C14",
  "the N-Triples/N-Quads parser accepts IRIs": "C03",
- "canonicalisation verifies": "C14", "Turtle, long Turtle and N3 serialisation terminates": "C03",
+ "canonicalisation verifies": "C14", "canonicalisation keeps tying": "C14", "Turtle, long Turtle and N3 serialisation terminates": "C03",
  "the Turtle serialisers write": "C03", "the Turtle serialisers stop": "C03", "the Turtle serialisers keep": "C03", "pretty-xml writes": "C03",
  "pretty-xml accepts": "C03", "the Turtle serialisers declare": "C03", "the Turtle shorthand for xsd:decimal": "C03",
  "relative IRI references are resolved": "C05",
  "SPARQL XML results write a carriage return": "C16", "SPARQL XML serialisation refuses": "C16",
- "SPARQL XML results keep a literal's empty datatype": "C16", "the TSV result reader splits lines": "C16",
+ "SPARQL XML results keep a literal's empty datatype": "C16", "the TSV result reader splits lines": "C16", "the CSV result reader splits": "C16",
  "GRAPH over a name that is not a graph": "C04", "logical-and is false": "C04",
  "a query may declare two prefixes": "C15", "an empty solution passed to QueryContext.clone": "C04",
 }
